@@ -30,6 +30,11 @@ PROPS["C10"] = dict(
     dict(name="c10-dupedge", harness="C10_lookups.cpp", entries=["harness_c10"], units=CORE, unwind=30, checks="none", object_bits=13, defines=["C10_PER=1"],
          shards=_c10_none([C10_B_DUPFIRST]), timeout=300, mem_gb=4,
          bounds="base C10_B_DUPFIRST: 3 vertices, E0=(0,1), E1=(0,1) duplicate, E2=(1,2), E3=(2,0), one face on (E1,E2,E3); no operation; " + _C10_SYM),
+    # cells whose boundary is not one sphere (accepted by add_cell's topology check): n_vertices_in_cell must still count distinct vertices
+    dict(name="c10-shells", harness="C10_cells.cpp", entries=["harness_c10_shells"], units=CORE, unwind=40, checks="none", object_bits=13,
+         shards=[{0: 0}, {0: 1}], timeout=400, mem_gb=4,
+         bounds="one cell of 8 triangles = tetrahedron shell on (0,1,2,3) + tetrahedron shell on (a,4,5,6), a in {0,1,2,3} (two shells pinched at vertex a) or 7 (two separate shells), "
+                "symbolic selector over the 5 values of a; built without (p0=0) and with (p0=1) add_cell's topology check; n_vertices_in_cell == number of distinct vertices in the stored definitions"),
     # thorough: larger bases (entries split by lookup family to keep queries small), relabelling operations
     dict(name="c10-base-big", harness="C10_lookups.cpp", entries=["harness_c10_a", "harness_c10_b", "harness_c10_c"], units=CORE, unwind=30, checks="none", object_bits=13, defines=["C10_PER=1"],
          tiers=["thorough"], shards=_c10_none([B_HEX, B_PRISM_PYR, B_TET3_RING]), timeout=900, mem_gb=6,
@@ -42,7 +47,7 @@ PROPS["C10"] = dict(
          bounds="B_TET after one swap_{vertex,edge,face,cell}_indices of ANY ordered pair, B_LOWDIM after swap_edge_indices of any pair (symbolic selector, 2 cases per query); " + _C10_SYM),
   ],
   assumptions=[
-    "C10: meshes of the stated base family after at most one operation, all three bottom-up incidence kinds enabled; cell arguments are live, closed cells (all cells of the base family are closed 2-manifold surfaces)",
+    "C10: meshes of the stated base family after at most one operation, all three bottom-up incidence kinds enabled; cell arguments are live, closed cells (all cells of the base family are closed 2-manifold surfaces; job c10-shells adds cells bounded by two shells, separate or pinched at a vertex)",
     "C10: 'requested vertices in the requested order' is read as: find_halfface(vertices)/find_halfface_in_cell -- v0,v1,v2 are consecutive in the halfface's vertex cycle (documented: only the first three are checked); "
     "find_halfface_extensive -- the halfface's whole vertex cycle read from v0 equals the list; find_halfface(halfedges) -- the halfface lists both of the first two halfedges (documented: only the first two are checked)",
     "C10: get_halfface_vertices(hf) is required to be the halfface's vertex cycle in its orientation (any rotation); the (hf,v)/(hf,he) forms are only constrained when the requested start vertex belongs to the halfface",
